@@ -170,7 +170,7 @@ CLAIMED = {
        "(sums over the input dimension as binder-free sum atoms normalised by linearity), exact output shape, diag branch == the diagonal; "
        "Kernel.__add__ / __mul__ with their flattening (operands leaf / sum / product, all nine combinations) evaluate to the sum / product "
        "of the operands' values; the polynomial factor of the piecewise polynomial kernel (q = 0..3) equals Rasmussen & Williams eq. 4.21. "
-       "Derivative kernels in the interleaved layout, for symbolic n1, n2 and concrete input dimension d in {1, 2} (the block assembly by slice assignment, reshapes, repeats and the perfect-shuffle gather are executed symbolically; index conditions are resolved against the integer part of the path condition): PolynomialKernelGrad (powers 2, 3) value / both gradients / mixed second derivatives = the derivatives of (x1.x2 + c)^p; RBFKernelGrad (isotropic and ARD, x1 != x2) = k, u_a k, -u_a k, ([a == e]/l_a^2 - u_a u_e) k with u_a = (x1_a - x2_a)/l_a^2; Matern52KernelGrad likewise with g = 5/3 (1 + s r) e^(-s r) and the Hessian block -5/3 e^(-s r) (5 u_a u_e - [a == e](1 + s r)/l_a^2) for the distance r of covar_dist's contract (identities closed by the CAS); a sympy lemma shows that these closed forms are the first and mixed second derivatives of the kernels (d = 2, ARD). Bounded tier (not counted): a float64 oracle sweep over EVERY kernel exported by gpytorch.kernels (CPU) against independent "
+       "Derivative kernels in the interleaved layout, for symbolic n1, n2 and concrete input dimension d in {1, 2} (the block assembly by slice assignment, reshapes, repeats and the perfect-shuffle gather are executed symbolically; index conditions are resolved against the integer part of the path condition): PolynomialKernelGrad (powers 2, 3) value / both gradients / mixed second derivatives = the derivatives of (x1.x2 + c)^p; RBFKernelGrad (isotropic and ARD, x1 != x2) = k, u_a k, -u_a k, ([a == e]/l_a^2 - u_a u_e) k with u_a = (x1_a - x2_a)/l_a^2; Matern52KernelGrad likewise with g = 5/3 (1 + s r) e^(-s r) and the Hessian block -5/3 e^(-s r) (5 u_a u_e - [a == e](1 + s r)/l_a^2) for the distance r of covar_dist's contract (identities closed by the CAS); a sympy lemma shows that these closed forms are the first and mixed second derivatives of the kernels (d = 2, ARD); RBFKernelGradGrad (value, first and diagonal second derivatives; d = 1, 2, isotropic and ARD): every entry [(i, p), (j, q)] equals D_p^{x1_i} D_q^{x2_j} k, the SYMBOLIC derivative computed by engine/diff.py from the kernel expression (all (2d+1)^2 blocks). Identities the back ends cannot close are checked numerically at sampled valuations; a difference is a counter-model candidate that is replayed (autograd reference) before it is reported. Bounded tier (not counted): a float64 oracle sweep over EVERY kernel exported by gpytorch.kernels (CPU) against independent "
        "re-implementations of the documented formulas, and the derivative kernels (RBF-grad, Matern-5/2-grad, polynomial-grad powers 1..4, "
        "RBF-grad-grad) against autograd derivatives of the base kernel in the interleaved layout, n1 != n2, d in {1,2,3}, batch shapes () / (2,).",
   design_ref="DESIGN.md section 5, C05",
